@@ -36,3 +36,85 @@ pub mod ft_capped {
     #[contractimpl(contracttrait)]
     impl FungibleBurnable for FtCapped {}
 }
+
+/// Guard macros STACKED on one entry point, in both orders (a usage the macro docs allow: each attribute
+/// macro wraps the function it is given, including the attributes below it).  Ownable owner == AccessControl
+/// admin == pauser.
+pub mod stacked {
+    use soroban_sdk::{contract, contractimpl, symbol_short, Address, Env, Symbol};
+    use stellar_access::{access_control, ownable};
+    use stellar_contract_utils::pausable;
+    use stellar_macros::{only_admin, only_owner, only_role, when_not_paused, when_paused};
+    const COUNTER: Symbol = symbol_short!("COUNTER");
+
+    #[contract]
+    pub struct Stacked;
+
+    fn bump(e: &Env) -> u32 {
+        let c: u32 = e.storage().instance().get(&COUNTER).unwrap_or(0) + 1;
+        e.storage().instance().set(&COUNTER, &c);
+        c
+    }
+
+    #[contractimpl]
+    impl Stacked {
+        pub fn __constructor(e: &Env, owner: Address, member: Address) {
+            ownable::set_owner(e, &owner);
+            access_control::set_admin(e, &owner);
+            access_control::grant_role_no_auth(e, &member, &symbol_short!("worker"), &owner);
+        }
+        pub fn counter(e: &Env) -> u32 {
+            e.storage().instance().get(&COUNTER).unwrap_or(0)
+        }
+        pub fn paused(e: &Env) -> bool {
+            pausable::paused(e)
+        }
+        #[only_owner]
+        pub fn pause(e: &Env) {
+            pausable::pause(e)
+        }
+        #[only_owner]
+        pub fn unpause(e: &Env) {
+            pausable::unpause(e)
+        }
+        // ---- owner guard outermost / innermost
+        #[only_owner]
+        #[when_not_paused]
+        pub fn owner_then_pause(e: &Env) -> u32 {
+            bump(e)
+        }
+        #[when_not_paused]
+        #[only_owner]
+        pub fn pause_then_owner(e: &Env) -> u32 {
+            bump(e)
+        }
+        // ---- admin guard
+        #[only_admin]
+        #[when_not_paused]
+        pub fn admin_then_pause(e: &Env) -> u32 {
+            bump(e)
+        }
+        #[when_not_paused]
+        #[only_admin]
+        pub fn pause_then_admin(e: &Env) -> u32 {
+            bump(e)
+        }
+        // ---- role guard
+        #[only_role(caller, "worker")]
+        #[when_not_paused]
+        pub fn role_then_pause(e: &Env, caller: Address) -> u32 {
+            bump(e)
+        }
+        #[when_not_paused]
+        #[only_role(caller, "worker")]
+        pub fn pause_then_role(e: &Env, caller: Address) -> u32 {
+            bump(e)
+        }
+        // ---- when_paused stacked under an owner guard
+        #[only_owner]
+        #[when_paused]
+        pub fn owner_then_when_paused(e: &Env) -> u32 {
+            bump(e)
+        }
+    }
+}
